@@ -355,6 +355,38 @@ Section READING.
   Definition raw_rows (from_ns to_ns t : Z) (fps : list N) (samples : list samplerow) : list row :=
     map to_row (isort sample_lt (filter (sample_ok from_ns to_ns t fps) samples)).
 
+  (* ---- processHints, per series (samples = (timestamp_ms, value), ascending in time) ----
+     instant-vector functions: one sample per step bucket, stamped with the bucket's end (the least
+     Start + j*Step at or after the sample), carrying the value of the bucket's latest sample *)
+  Definition bucket_of (start step ts : Z) : Z := (Z.quot (ts - start + step - 1) step * step + start)%Z.
+  Fixpoint bucket_series (start step : Z) (l : list sample) : list sample :=
+    match l with
+    | [] => []
+    | s :: r =>
+      let b := bucket_of start step (fst s) in
+      match bucket_series start step r with
+      | s' :: r' => if Z.eqb (fst s') b then s' :: r' else (b, snd s) :: s' :: r'
+      | [] => [(b, snd s)]
+      end
+    end.
+  (* range-vector functions with Step > Range: only samples whose timestamp modulo Step is 0 or at least Step - Range *)
+  Definition range_keep (step range : Z) (s : sample) : bool :=
+    (Z.rem (fst s) step =? 0)%Z || (step - range <=? Z.rem (fst s) step)%Z.
+  Definition range_filter (step range : Z) (l : list sample) : list sample := filter (range_keep step range) l.
+
+  (* what an instant selector sees at evaluation time T with look-back L: the latest sample at or before T,
+     if not older than T - L *)
+  Definition latest_le (T : Z) (l : list sample) : option sample :=
+    fold_left (fun acc s => if (fst s <=? T)%Z then Some s else acc) l None.
+  Definition visible (L T : Z) (l : list sample) : option Z :=
+    match latest_le T l with
+    | Some s => if (T - L <=? fst s)%Z then Some (snd s) else None
+    | None => None
+    end.
+  (* what a range selector sees at evaluation time T: the samples of [T - range, T] *)
+  Definition window (range T : Z) (l : list sample) : list sample :=
+    filter (fun s => (T - range <=? fst s)%Z && (fst s <=? T)%Z) l.
+
   (* the rows answered to labelsGetter's request *)
   Definition fetch_rows (day_from day_to : Z) (fps : list N) (series : list tsrow) : list fetch_row :=
     map (fun s => (t_fp s, t_labels s))
